@@ -787,6 +787,11 @@ def text_history_cases(tier, rng):
             cases.append(Case("lit:sfrom:%d:%d" % (li, i), bin_("sfrom", L_, zl(i)), TT))
             cases.append(Case("lit:slice:%d:%d" % (li, i), ter("slice", L_, zl(i), un("len", L_)), TT))
         cases.append(Case("lit:each:%d" % li, ident("acc"), TT, acc_init() + [{"k": "foreach", "v": "c", "t": TC, "idx": "ix", "in": L_, "body": [acc_add(bin_("cat", as_text(ident("ix")), ident("c")))]}]))
+        # the loop variable is an ordinary variable: writing it (a character of another encoded length) changes neither the characters
+        # visited later nor their number
+        for ri, (old_c, new_c) in enumerate([(c0, r_) for c0 in dict.fromkeys(s_) for r_ in ("x", "ä", "€", "😀") if r_ != c0]):
+            cases.append(Case("lit:each-write:%d:%d" % (li, ri), ident("acc"), TT, acc_init() + [{"k": "foreach", "v": "c", "t": TC, "idx": "", "in": L_, "body": [
+                acc_add(as_text(ident("c"))), if_(bin_("eq", ident("c"), lit(C(old_c))), [setv(lvid("c"), lit(C(new_c)))]), acc_add(as_text(ident("c"))), acc_add(lit(T("|")))]}]))
     for init in inits:
         for n in range(0, nsteps + 1):
             for hist in itertools.product(sorted(steps), repeat=n):
